@@ -36,6 +36,7 @@ func checkC02(c *Ctx, r *Report) {
 	c02R3(c, r, fns)
 	c02R4(c, r, e, fns)
 	c02R5(c, r, e, scope, fns)
+	borrow(c, r, c01Sections, "C01.R2.sections-reset", "C02.R2.sections-reset", 1, "every success return of Msg.unpack has assigned all four sections: nothing in the returned message is left over from an earlier input", nil, "the returned message then holds records that do not lie inside the input")
 }
 
 func c02R1(c *Ctx, r *Report) {
